@@ -68,3 +68,18 @@ Fixpoint events (n : nat) (s : tstate) (orc : list outcome) : tstate :=
 Definition init_t : tstate := mkTS [] [] [] false 0.
 Definition issue (bufs : list bytes) : tstate :=
   fst (fold_left (fun (acc : tstate * nat) b => (enqueue (fst acc) (snd acc) b, S (snd acc))) bufs (init_t, 0)).
+
+(* Transport::onReady for the connection's descriptor: one poll result can report the descriptor
+   readable, writable or both.  [both = false] is the dispatch before fix 0d7aadf (readable, ELSE
+   writable).  Input handling does not touch the write queue of this model. *)
+Inductive ready := Ready (readable writable : bool).
+Definition on_ready (both : bool) (s : tstate) (r : ready) (orc : list outcome) : tstate * list outcome :=
+  match r with
+  | Ready rd wr =>
+      if wr && (both || negb rd) then
+        match queue s with
+        | [] => (s, orc)
+        | _ => drain_event (mkTS (queue s) (wire s) (settled s) false (sends s)) orc
+        end
+      else (s, orc)
+  end.
